@@ -11,8 +11,14 @@ as `C`).  The loss value `f`, its gradient, `dot`, `sqrt`, the stopping mode and
 does not depend on them.
 
 Not proved here (honest gap, see `…_partial` names): that the loops terminate before the iteration limit and that the
-stopped iterate is ε-close to the constrained minimiser; and that the implementation's projections map into the sets
-(that is C04/C05 — here it is the hypothesis `hproj`).
+stopped iterate is ε-close to the constrained minimiser; that the implementation's projections map into the sets
+(that is C04/C05 — here it is the hypothesis `hproj`); exact-data optimality of the truth is proved for the identity-weight
+squared error of the driver only (`exact_data_minimiser`), not for weighted squared error or relative entropy.
+`selection_table`, `selection_keeps_installed`, `ple_eq_proj_of_lin` and the flag clauses of
+`lme_estimates_from_selected_projection` are the model's decision tables (true by unfolding); their content is the
+correspondence (`select`, `ple`, `lme` ops) and, for the first, `gen_selection_table`.  The `pgdb_*` theorems assume the line
+search returned (`= some it`, i.e. a step size `> 0` was accepted in exact arithmetic); when the direction is not a descent
+direction (inexact projection) the float code ends the search by underflow with `x_next = x_prev`, which is feasible as well.
 -/
 set_option linter.unusedSectionVars false
 namespace QM.C10
@@ -108,6 +114,47 @@ theorem gen_update_formulas :
     QGen.C10.errExprFista = StopMode.all.map (StopMode.errExpr "x_next") ∧
     QGen.C10.stopModes.map StopMode.ofString? = StopMode.all.map some := by
   decide
+
+/-- C10.gen_update_terms: the tie at the level of TERMS, not strings — the source expressions of the three loops, translated by
+`c10_translate.py` into Lean definitions over the same scalar / vector classes, ARE the model functions: the backtracking
+direction `pgdbDir`, the line-search test `isDoingForAlpha` (`left_side > right_side`), the momentum update and `ζ` update inside
+`pgdmStep`, the FISTA extrapolation and projection `fistaStep` (with `kcoef k` for `(k − 2)/(k + 1)`, `c95` for `0.95`).  A drift
+of a model function away from the source formula, or of the source away from the model, breaks this theorem. -/
+theorem gen_update_terms {K V : Type} [Add V] [Sub V] [SMul K V] [Add K] [Sub K] [Mul K] [Div K] [Neg K] [Zero K] [One K] [LT K]
+    [DecidableLT K] :
+    (∀ (proj grad : V → V) (mu : K) (x : V), pgdbDir proj grad mu x = QGen.C10.yPrev proj grad mu x) ∧
+    (∀ (f : V → K) (grad : V → V) (dot : V → V → K) (x y : V) (alpha gamma : K),
+      isDoingForAlpha f grad dot x y alpha gamma
+        = decide (QGen.C10.armijoRhs f grad dot x y alpha gamma < QGen.C10.armijoLhs f x y alpha)) ∧
+    (∀ (proj grad : V → V) (mag : V → Int) (gamma c95 : K) (s : PgdmState K V),
+      (pgdmStep proj grad mag gamma c95 s).moment
+          = QGen.C10.momentNext grad (pgdmStep proj grad mag gamma c95 s).zeta gamma s.moment s.x ∧
+        (pgdmStep proj grad mag gamma c95 s).x = QGen.C10.xNextPgdm proj s.x (pgdmStep proj grad mag gamma c95 s).moment ∧
+        ((pgdmStep proj grad mag gamma c95 s).zeta = s.zeta ∨
+          (pgdmStep proj grad mag gamma c95 s).zeta = QGen.C10.zetaNext s.zeta c95)) ∧
+    (∀ (proj grad : V → V) (delta : K) (kcoef : Nat → K) (k : Nat) (x xpp : V),
+      fistaStep proj grad delta kcoef k x xpp = QGen.C10.xNextFista proj (QGen.C10.fistaTmp grad kcoef delta k x xpp)) := by
+  refine ⟨fun _ _ _ _ => rfl, fun _ _ _ _ _ _ _ => rfl, ?_, fun _ _ _ _ _ _ _ => rfl⟩
+  intro proj grad mag gamma c95 s
+  refine ⟨rfl, rfl, ?_⟩
+  unfold pgdmStep
+  by_cases h : mag s.x < s.magPrev
+  · right; simp [h, QGen.C10.zetaNext]
+  · left; simp [h]
+
+/-- the accepted step of `pgdbStep` is the source's `x_prev + alpha * y_prev` along the source's `y_prev` (generated terms) -/
+theorem gen_pgdb_next_point {K V : Type} [Add V] [Sub V] [SMul K V] [Add K] [Sub K] [Mul K] [Div K] [Neg K] [Zero K] [One K] [LT K]
+    [DecidableLT K] (proj : V → V) (f : V → K) (grad : V → V) (dot : V → V → K)
+    (sqrt : K → K) (mu gamma : K) (mode : StopMode) (btFuel : Nat) (x : V) (it : PgdbIter K V)
+    (h : pgdbStep proj f grad dot sqrt mu gamma mode btFuel x = some it) :
+    it.xNext = QGen.C10.xNextPgdb x it.y it.alpha ∧ it.y = QGen.C10.yPrev proj grad mu x := by
+  unfold pgdbStep at h
+  cases hb : backtrack f grad dot x (pgdbDir proj grad mu x) gamma btFuel 1 with
+  | none => simp [hb] at h
+  | some a =>
+    simp only [hb, Option.some.injEq] at h
+    subst h
+    exact ⟨rfl, rfl⟩
 
 /-- C10.gen_option_checks: the conditions under which `is_option_sufficient` rejects an option object, read from the source, are
 the ones `pgdbOptionSufficient` / `stepOptionSufficient` implement. -/
@@ -421,8 +468,9 @@ theorem pgdb_estimate_feasible {C : Set V} (hC : Convex K C) (proj : V → V) (h
 
 end pgdb
 
-/-- C10.pgdb_estimate_approx_feasible: the same with an *inexact* projection, as the implementation's is (Dykstra stopped at
-`eps_proj_physical`, `proj_physical_accuracy`): if every projection output is within `δ` of the convex set `C` and the start
+/-- C10.pgdb_estimate_approx_feasible: the same with an *inexact* projection: if every projection output is within `δ` of the
+convex set `C` (an assumption on the distance to `C` itself — for the physical set, an intersection, it is NOT what
+`proj_physical_accuracy` delivers; see `pgdb_estimate_physical_to_threshold` for that) and the start
 point is too, then every iterate and the returned estimate are within `δ` of `C` — the error does not accumulate over the
 iterations.  (`V` a real normed space; `Metric.cthickening δ C = {x | dist(x, C) ≤ δ}`.) -/
 theorem pgdb_estimate_approx_feasible {V : Type} [SeminormedAddCommGroup V] [NormedSpace ℝ V] {C : Set V} (hC : Convex ℝ C)
@@ -434,6 +482,59 @@ theorem pgdb_estimate_approx_feasible {V : Type} [SeminormedAddCommGroup V] [Nor
     x ∈ Metric.cthickening delta C ∧ ∀ v ∈ hist, v ∈ Metric.cthickening delta C :=
   pgdb_estimate_feasible (hC.cthickening delta) proj hproj f grad dot sqrt mu gamma eps mode numHist btFuel maxIter xStart hs
     x hist errs h
+
+/-- C10.proj_physical_lands_in_threshold_set: what a physical projection that stopped on its criterion delivers, as a SET
+statement: if the two elementary projections map into `Ceq` / `Cineq`, the result lies in the set of the projection applied last
+and in the closed `δ`-thickening, `δ² ≥ eps`, of the set of the projection applied first (`normSq = ‖·‖²`).  (Nothing is claimed about the
+distance to the intersection `Ceq ∩ Cineq` — that would need a regularity constant of the pair of sets.) -/
+theorem proj_physical_lands_in_threshold_set {V : Type} [SeminormedAddCommGroup V] [NormedSpace ℝ V] {Ceq Cineq : Set V}
+    (projEq projIneq : V → V) (hE : ∀ z, projEq z ∈ Ceq) (hI : ∀ z, projIneq z ∈ Cineq) (order : Order) (eps delta : ℝ)
+    (hdelta : 0 ≤ delta) (heps : eps ≤ delta ^ 2) (maxIter : Nat) (zero x0 x : V)
+    (h : projPhysical projEq projIneq order (fun v => ‖v‖ ^ 2) eps maxIter zero x0 = some (x, true)) :
+    x ∈ (match order with | .eqIneq => Cineq | .ineqEq => Ceq) ∩
+      Metric.cthickening delta (match order with | .eqIneq => Ceq | .ineqEq => Cineq) := by
+  have hd : ∀ y : V, ‖x - y‖ ^ 2 < eps → dist x y ≤ delta := by
+    intro y hy
+    rw [dist_eq_norm]
+    by_contra hc
+    rw [not_le] at hc
+    have : delta ^ 2 < ‖x - y‖ ^ 2 := by nlinarith [norm_nonneg (x - y)]
+    linarith
+  have hacc := proj_physical_accuracy projEq projIneq order (fun v => ‖v‖ ^ 2) (fun v => by positivity) eps maxIter zero x0 x
+    true h
+  cases order with
+  | eqIneq =>
+    obtain ⟨⟨z, hz⟩, hclose⟩ := hacc
+    obtain ⟨w, hw⟩ := hclose rfl
+    exact ⟨by subst hz; exact hI z, Metric.mem_cthickening_of_dist_le x _ _ _ (hE w) (hd _ hw)⟩
+  | ineqEq =>
+    obtain ⟨⟨z, hz⟩, hclose⟩ := hacc
+    obtain ⟨w, hw⟩ := hclose rfl
+    exact ⟨by subst hz; exact hE z, Metric.mem_cthickening_of_dist_le x _ _ _ (hI w) (hd _ hw)⟩
+
+/-- C10.pgdb_estimate_physical_to_threshold: "physical to the accuracy of the stopping threshold" for the backtracking estimate:
+with `A` the (convex) set of the projection applied last and `B` that of the projection applied first, the set
+`A ∩ cthickening δ B` is convex; if the installed projection maps into it (which `proj_physical_lands_in_threshold_set` gives,
+with `δ² = eps_proj_physical`, for every call that stopped on its criterion) and the start point lies in it, then every iterate
+and the returned estimate lie in `A` exactly and within `δ` of `B`.  This — not `pgdb_estimate_approx_feasible`, whose
+hypothesis speaks about the distance to the intersection — is what the Dykstra stop accuracy implies. -/
+theorem pgdb_estimate_physical_to_threshold {V : Type} [SeminormedAddCommGroup V] [NormedSpace ℝ V] {A B : Set V}
+    (hA : Convex ℝ A) (hB : Convex ℝ B) (delta : ℝ) (proj : V → V) (hproj : ∀ z, proj z ∈ A ∩ Metric.cthickening delta B)
+    (f : V → ℝ) (grad : V → V) (dot : V → V → ℝ) (sqrt : ℝ → ℝ) (mu gamma eps : ℝ) (mode : StopMode)
+    (numHist btFuel maxIter : Nat) (xStart : V) (hs : xStart ∈ A ∩ Metric.cthickening delta B) (x : V) (hist : List V)
+    (errs : List ℝ)
+    (h : pgdbOptimize proj f grad dot sqrt mu gamma eps mode numHist btFuel maxIter xStart = some (x, hist, errs)) :
+    (x ∈ A ∧ x ∈ Metric.cthickening delta B) ∧ ∀ v ∈ hist, v ∈ A ∧ v ∈ Metric.cthickening delta B :=
+  pgdb_estimate_feasible (hA.inter (hB.cthickening delta)) proj hproj f grad dot sqrt mu gamma eps mode numHist btFuel maxIter
+    xStart hs x hist errs h
+
+/-- an inexact projection in the sense of the theorem: `ℝ`, `A = [−1, ∞)`, `B = [0, ∞)`, `δ = 1`, `proj z = max z 0 − 1/2` -/
+example : ∀ z : ℝ, (fun z => max z 0 - 1 / 2) z ∈ Set.Ici (-1 : ℝ) ∩ Metric.cthickening 1 (Set.Ici (0 : ℝ)) := by
+  intro z
+  refine ⟨?_, Metric.mem_cthickening_of_dist_le _ (max z 0) _ _ (Set.mem_Ici.2 (le_max_right _ _)) ?_⟩
+  · show (-1 : ℝ) ≤ max z 0 - 1 / 2
+    have := le_max_right z 0; linarith
+  · rw [Real.dist_eq]; norm_num [abs_le]
 
 /-- the hypotheses are satisfiable and the loop really moves: on `ℚ` with `C = [0, ∞)`, `proj = max 0`,
 `f x = (x + 1)²`, start `1`: the run visits more than the start point. -/
@@ -481,12 +582,12 @@ theorem pgdb_truth_is_fixed_partial (proj : V → V) (f : V → K) (grad : V →
     rcases hm with rfl | rfl <;> simp [errorValue]
 
 /-- C10.pgdb_run_from_stationary_point: the whole `optimize` run (every stopping mode, any window, any threshold `eps ≥ 0`, any
-iteration limit ≥ 1) started at a point with vanishing loss gradient that the installed projection fixes — the true object
+iteration limit ≥ 1; window `≥ 1` as the option constructor enforces) started at a point with vanishing loss gradient that the installed projection fixes — the true object
 under exact data, handed in as `var_start` — performs exactly one iteration and returns that point: history `[x, x]`, error
 values `[0]`.  (Strictly more of the code path than `pgdb_truth_is_fixed_partial`: line search, error value of all four modes,
 window sum, stopping test and loop exit.) -/
 theorem pgdb_run_from_stationary_point (proj : V → V) (f : V → K) (grad : V → V) (dot : V → V → K) (sqrt : K → K)
-    (mu gamma eps : K) (heps : 0 ≤ eps) (mode : StopMode) (numHist btFuel maxIter : Nat) (x : V) (hg : grad x = 0)
+    (mu gamma eps : K) (heps : 0 ≤ eps) (mode : StopMode) (numHist btFuel maxIter : Nat) (_hn : 1 ≤ numHist) (x : V) (hg : grad x = 0)
     (hp : proj x = x) (hdot : ∀ v, dot 0 v = 0) (hsqrt : sqrt 0 = 0) :
     pgdbOptimize proj f grad dot sqrt mu gamma eps mode numHist (btFuel + 1) (maxIter + 1) x = some (x, [x, x], [0]) := by
   obtain ⟨it, hstep, hxn, _, hy, _⟩ :=
